@@ -13,6 +13,17 @@ func ShareVariants(t reflect.Type, def reflect.Value) []reflect.Value {
 		}
 		var first reflect.Value
 		done := false
+		// path holds the identities of the pointers/maps/slices we are currently below: sharing with an
+		// ancestor would create a cyclic value, which is outside the property (finite acyclic values)
+		var path []uintptr
+		onPath := func(p uintptr) bool {
+			for _, q := range path {
+				if q == p {
+					return true
+				}
+			}
+			return false
+		}
 		var walk func(x reflect.Value, d int)
 		walk = func(x reflect.Value, d int) {
 			if done || !x.IsValid() || d > 8 {
@@ -22,7 +33,7 @@ func ShareVariants(t reflect.Type, def reflect.Value) []reflect.Value {
 			if x.Kind() == kind && !x.IsNil() && x.CanSet() {
 				if !first.IsValid() {
 					first = x
-				} else if first.Type() == x.Type() {
+				} else if first.Type() == x.Type() && !onPath(first.Pointer()) && first.Pointer() != x.Pointer() {
 					x.Set(first)
 					done = true
 					return
@@ -31,14 +42,22 @@ func ShareVariants(t reflect.Type, def reflect.Value) []reflect.Value {
 			switch x.Kind() {
 			case reflect.Ptr:
 				if !x.IsNil() {
+					path = append(path, x.Pointer())
 					walk(x.Elem(), d+1)
+					path = path[:len(path)-1]
 				}
 			case reflect.Slice, reflect.Array:
 				if x.Kind() == reflect.Slice && x.IsNil() {
 					return
 				}
+				if x.Kind() == reflect.Slice {
+					path = append(path, x.Pointer())
+				}
 				for i := 0; i < x.Len(); i++ {
 					walk(x.Index(i), d+1)
+				}
+				if x.Kind() == reflect.Slice {
+					path = path[:len(path)-1]
 				}
 			case reflect.Struct:
 				for i := 0; i < x.NumField(); i++ {
